@@ -126,7 +126,7 @@ theorem stages_nodup (T : SliderTables) (g : Game) (k : Sq) (h : PosH g k) (cm o
       unfold Gen.knightCaptures at hm
       obtain ⟨s, d, hs, _, e⟩ := (mem_sq_sq _ _ Move.capture m).1 hm
       rw [mem_and, Bool.and_eq_true] at hs
-      have := (mem_piecesOf g.board hc .knight g.player s).1 hs.1
+      have := (mem_kindOf g.board hc .knight g.player s).1 hs.1
       rw [stage_of _ m .knight g.player (by rw [e]; exact this), e]
       rfl
     · -- 6 diagonal slider captures
@@ -200,7 +200,7 @@ theorem stages_nodup (T : SliderTables) (g : Game) (k : Sq) (h : PosH g k) (cm o
       unfold Gen.knightQuiets at hm
       obtain ⟨s, d, hs, _, e⟩ := (mem_sq_sq _ _ Move.quiet m).1 hm
       rw [mem_and, Bool.and_eq_true] at hs
-      have := (mem_piecesOf g.board hc .knight g.player s).1 hs.1
+      have := (mem_kindOf g.board hc .knight g.player s).1 hs.1
       rw [stage_of _ m .knight g.player (by rw [e]; exact this), e]
       rfl
     · -- 13 diagonal slider quiets
